@@ -70,21 +70,10 @@ pub fn write_metric_line<T, T2>(
     T2: std::fmt::Display,
 {
     buffer.push_str(name);
+    write_unit_suffix(buffer, unit);
     if let Some(suffix) = suffix {
         buffer.push('_');
         buffer.push_str(suffix);
-    }
-
-    match unit {
-        Some(Unit::Count) | None => {}
-        Some(Unit::Percent) => {
-            buffer.push('_');
-            buffer.push_str("ratio");
-        }
-        Some(unit) => {
-            buffer.push('_');
-            buffer.push_str(unit.as_str());
-        }
     }
 
     if !labels.is_empty() || additional_label.is_some() {
@@ -116,6 +105,24 @@ pub fn write_metric_line<T, T2>(
     buffer.push(' ');
     buffer.push_str(value.to_string().as_str());
     buffer.push('\n');
+}
+
+/// Writes the unit suffix of a metric name, if the unit has one.
+///
+/// The unit is part of the metric family name, so it goes directly after the base name: before any
+/// `_bucket`/`_sum`/`_count` suffix of a sample, and on the `HELP` and `TYPE` lines as well.
+pub(crate) fn write_unit_suffix(buffer: &mut String, unit: Option<Unit>) {
+    match unit {
+        Some(Unit::Count) | None => {}
+        Some(Unit::Percent) => {
+            buffer.push('_');
+            buffer.push_str("ratio");
+        }
+        Some(unit) => {
+            buffer.push('_');
+            buffer.push_str(unit.as_str());
+        }
+    }
 }
 
 /// Sanitizes a metric name to be valid under the Prometheus [data model].
